@@ -1,6 +1,6 @@
 """Source of MANIFEST.json (run ./tools_manifest.py after editing)."""
 
-FIX_COMMITS = ['aa8a796', 'e19c32a', '9330350', '8599158', '33efd15', '1cc24ab', '668079e', 'f34decb', 'f0c9eb4', 'f63685a', 'f41aea7', '4c9fae6', '89fa7aa', '44add83', '3e6a5c9', '24d79b7', '9b58b2c', '783304e', 'f6c2ece', '8bd765a', 'debc858', '096bb2b', '9bcdd72', 'af4b9f6', 'cef733f', 'a117c80', 'b164430', '2fdc9c3']
+FIX_COMMITS = ['aa8a796', 'e19c32a', '9330350', '8599158', '33efd15', '1cc24ab', '668079e', 'f34decb', 'f0c9eb4', 'f63685a', 'f41aea7', '4c9fae6', '89fa7aa', '44add83', '3e6a5c9', '24d79b7', '9b58b2c', '783304e', 'f6c2ece', '8bd765a', 'debc858', '096bb2b', '9bcdd72', 'af4b9f6', 'cef733f', 'a117c80', 'b164430', '2fdc9c3', '1f4ac19', '0565888']
 
 _ALL = ['C%02d' % i for i in range(1, 21)]
 
@@ -236,6 +236,20 @@ CHECKS.append(dict(
          '1e-7, simple_bounds_newton); identified, well-conditioned problems only; min/max keep operand order (tie derivative); '
          'override of FIXED parameters by a dictionary is not asserted (undocumented).',
     technique='property-based testing (Hypothesis): metamorphic renaming/reordering relation on generated models, refusal checks for duplicate names',
+))
+
+CHECKS.append(dict(
+    id='C09',
+    text='Generated panel tables (1-6 individuals, block sizes 1-4, ids negative / fractional / large, blocks in any order, some '
+         'deliberately interleaved) with strictly positive trajectory arguments, optionally under MonteCarlo with deterministic '
+         'user-defined draws: interleaved ids must be refused with BiogemeError; otherwise the individual map partitions the rows '
+         'into one contiguous block per id, the table keeps its rows, the sample size is the number of individuals, the trajectory '
+         'value per individual is the product of the reference row values over exactly its rows (averaged over the individual\'s '
+         'own draws), calculate_likelihood is the sum over individuals (scaled: divided by their number), simulate has one row per '
+         'individual, and everything is invariant when blocks and rows inside blocks are permuted.',
+    note='Rows of an individual are identified by reading Database.data back after panel(); draws are affine functions of '
+         '(individual position, draw index); a draw variable inside a logit availability is a listed known finding.',
+    technique='property-based testing (Hypothesis): reference product/average oracle per individual, permutation metamorphic relation, refusal of interleaved ids',
 ))
 
 _claimed = {c['id'] for c in CHECKS}
